@@ -46,7 +46,7 @@ var entries = map[int]EntryFn{}
 var entryNames = map[int]string{}
 
 func register(id int, name string, f EntryFn) {
-	if _, dup := entries[id]; dup {
+	if _, dup := entryNames[id]; dup {
 		panic("duplicate entry")
 	}
 	entries[id] = f
@@ -60,6 +60,19 @@ func RunGo(c Case) (res string) {
 			res = "panic"
 		}
 	}()
+	if c.Entry == eV4Accessor {
+		outs, ok := goRes[c.Line()]
+		if !ok {
+			return "err"
+		}
+		var sb strings.Builder
+		sb.WriteString("ok")
+		for _, o := range outs {
+			sb.WriteByte(' ')
+			sb.WriteString(hx(o))
+		}
+		return sb.String()
+	}
 	f, ok := entries[c.Entry]
 	if !ok {
 		return "err"
